@@ -9,6 +9,20 @@ CHECKS = {
          "Every (tree size <= 9 [17 thorough], leaf, claimed position incl. out-of-range ones, path/root/leaf variant) is executed on the real function and compared with the definition of inclusion; exhaustive over the stated alphabet.",
          "SHA-256 trusted; leaves pairwise distinct; tree sizes beyond the bound not covered.", "DESIGN.md section 4 C04"),
 }
+
+KB_NOTE = "Explores the real keeper functions on CacheContext branches of a real App; the block step (BeginBlocker / execution-block requests as one atomic tx / EndBlocker) mirrors BaseApp.FinalizeBlock; CometSim feeds votes/evidence from a real CometBFT ValidatorSet with the H+2 lag. Values outside the amount alphabet and histories longer than the depth bound are not covered."
+CHECKS.update({
+ "C11": ("keepermc", "explicit-state DFS over the real locking keeper with canonical-state de-duplication; per-token conservation step identity",
+         "Every locking history up to the depth bound over the stated menu is executed on the real keeper and checked against the per-token conservation identity, unlock <= request and <= holding, non-negativity.", KB_NOTE, "DESIGN.md section 4 C11"),
+ "C12": ("keepermc", "explicit-state DFS over the real locking keeper; reward conservation / emission / proportional-share oracles on every transition",
+         "Every reward history up to the depth bound for power vectors (4,1,1),(1,2),(1) is executed on the real keeper; conservation, emission schedule, share proportionality, carry-over, claim semantics and non-negativity are checked on every transition.", KB_NOTE, "DESIGN.md section 4 C12"),
+ "C13": ("keepermc", "explicit-state DFS over the real locking keeper; CometBFT's own ValidatorSet.UpdateWithChangeSet as acceptance oracle plus top-K invariants in every state",
+         "Every history up to the depth bound is executed; each ValidatorUpdates answer is applied to a real CometBFT validator set, and the recorded set is compared with the accumulated updates and the top-K rule in every reached state.", KB_NOTE, "DESIGN.md section 4 C13"),
+ "C14": ("keepermc", "explicit-state DFS over vote patterns, evidence timings and follow-up requests against a reference signing-window/tombstone automaton",
+         "Every vote/evidence/request history up to the depth bound is executed on the real keeper and compared step by step with a reference automaton written from the property statement (exact slash amounts, jail, tombstone permanence).", KB_NOTE, "DESIGN.md section 4 C14"),
+ "C15": ("keepermc", "explicit-state DFS over lock/unlock/time histories against a reference release-time model",
+         "Every unlock history up to the depth bound (incl. bursts over the delivery cap and equal timestamps) is executed and compared with reference release times, maturity order, FIFO hand-over and id-multiset conservation.", KB_NOTE, "DESIGN.md section 4 C15"),
+})
 PENDING = {}
 
 def main():
